@@ -9,10 +9,15 @@ pub struct RunOpts {
     pub audits: bool,
     pub log: bool,
     pub finish: bool,
+    /// C14: after the program, drop all but the last instruction's operands, collect and
+    /// execute the last instruction again
+    pub retry_target: bool,
+    /// C14: what the retry needed in the ample-capacity run (live, delta, live_terms, delta_terms)
+    pub retry_need: Option<RetryInfo>,
 }
 impl Default for RunOpts {
     fn default() -> Self {
-        RunOpts { audits: true, log: false, finish: true }
+        RunOpts { audits: true, log: false, finish: true, retry_target: false, retry_need: None }
     }
 }
 
@@ -57,6 +62,7 @@ pub fn run_program(prog: &Program, o: &RunOpts) -> RunResult {
     let mut ctx = RunCtx::new(o.audits, o.log);
     let mut model = Model::new(prog.config.kind, prog.config.vars);
     let mut steps = 0;
+    let mut retry = None;
     let res = std::panic::catch_unwind(std::panic::AssertUnwindSafe(|| {
         let mut mach = make_machine(&prog.config);
         if o.audits {
@@ -69,6 +75,29 @@ pub fn run_program(prog: &Program, o: &RunOpts) -> RunResult {
             ctx.step = i;
             mach.step(ins, &mut model, &mut ctx);
             steps = i + 1;
+        }
+        if o.retry_target && !ctx.failed() {
+            if let Some(ins) = prog.instrs.last() {
+                ctx.step = prog.instrs.len() - 1;
+                retry = mach.retry(ins, &mut model, &mut ctx);
+                if let (Some(r), Some(need)) = (retry, o.retry_need) {
+                    let room = (prog.config.capacity as usize).saturating_sub(r.live) >= need.delta
+                        && (prog.config.term_capacity as usize).saturating_sub(r.live_terms) >= need.delta_terms;
+                    if r.live == need.live && r.live_terms == need.live_terms && room && !r.ok {
+                        ctx.violate(
+                            &["C14"],
+                            "retry-fails",
+                            format!(
+                                "{:?} still fails after drop + gc: {} inner nodes / {} terminals alive, capacity {}/{}, the operation needs {} + {}",
+                                ins, r.live, r.live_terms, prog.config.capacity, prog.config.term_capacity, need.delta, need.delta_terms
+                            ),
+                        );
+                    }
+                    if r.ok {
+                        ctx.stats.bump("probe.retry_after_oom_succeeded");
+                    }
+                }
+            }
         }
         if o.finish && !ctx.failed() {
             mach.finish(&mut model, &mut ctx);
@@ -92,5 +121,8 @@ pub fn run_program(prog: &Program, o: &RunOpts) -> RunResult {
         ids_digest: ctx.ids.0,
         steps,
         log: ctx.log,
+        peak_inner: ctx.peak_inner,
+        peak_terms: ctx.peak_terms,
+        retry,
     }
 }
